@@ -385,4 +385,8 @@ for _l in R.lemmas.values():
     if _l.replay is None:
         _l.replay = generic_replay(_l.func, [proto, _sys.modules[__name__]])
 
+for _lid in ['L4.4', 'L4.5', 'L4.6']:
+    if _lid in R.lemmas:
+        R.lemmas[_lid].api = True
+
 get_harness = R.get_harness
